@@ -106,24 +106,25 @@ func caseTerm(sc Scenario, o Observation) string {
 
 func sch(s string) []string { return strings.Fields(s) }
 
-// corpus: the witnesses of the refutation theorems and the schedules of the non-vacuity examples
-// (props/C17.v); they always run first.
+// corpus: the witnesses of the refutation theorems, the former witnesses of the repaired findings
+// (regression cases: they must pass now) and the schedules of the non-vacuity examples (props/C17.v);
+// they always run first.
 func corpus() []Scenario {
 	nb := Beh{ExitOnDone: -1}
 	return []Scenario{
 		{Kind: "basic", Beh: nb, Sched: sch("launch timer conf start stop reset kill")},           // normal life
-		{Kind: "basic", Beh: nb, Sched: sch("launch timer start kill")},                          // C17-b
-		{Kind: "hook", Beh: nb, Sched: sch("launch timer trigger kill")},                         // C17-b (hook)
-		{Kind: "basic", Beh: nb, Sched: sch("launch kill timer")},                                // C17-c
-		{Kind: "basic", Beh: Beh{SelfSig: true, ExitOnDone: -1}, Sched: sch("launch timer start exit stop stop")},             // C17-d
-		{Kind: "basic", Beh: Beh{SelfSig: true, ExitOnDone: -1}, Sched: sch("launch timer start exit stop start stop kill")}, // C17-d, child left running
-		{Kind: "basic", Beh: Beh{SelfSig: true, ExitOnDone: -1}, Sched: sch("launch timer start exit stop start stop kill exit")}, // C17-i: the blocked STOP is released after KILL
-		{Kind: "basic", Beh: Beh{Fork: true, ExitOnDone: -1}, Sched: sch("launch timer start exit stop")},                     // C17-h
+		{Kind: "basic", Beh: nb, Sched: sch("launch timer start kill")},                          // was C17-b: the child is killed now
+		{Kind: "hook", Beh: nb, Sched: sch("launch timer trigger kill")},                         // C17-b (hook: left alone by design)
+		{Kind: "basic", Beh: nb, Sched: sch("launch kill timer")},                                // was C17-c: FINISHED only
+		{Kind: "basic", Beh: Beh{SelfSig: true, ExitOnDone: -1}, Sched: sch("launch timer start exit stop stop")},             // was C17-d: both answered
+		{Kind: "basic", Beh: Beh{SelfSig: true, ExitOnDone: -1}, Sched: sch("launch timer start exit stop start stop kill")}, // was C17-d: second child killed by its STOP
+		{Kind: "basic", Beh: Beh{SelfSig: true, ExitOnDone: -1}, Sched: sch("launch timer start exit stop start stop kill exit")}, // was C17-i: no blocked STOP, no crash
+		{Kind: "basic", Beh: Beh{Fork: true, ExitOnDone: -1}, Sched: sch("launch timer start exit stop")},                     // was C17-h: the forked child is swept
 		{Kind: "basic", Beh: Beh{Fork: true, ExitOnDone: -1}, Sched: sch("launch timer start stop")},                          // group kill works
-		{Kind: "ctl", Beh: nb, Sched: sch("launch kill settle")},                                 // C17-e (dial)
-		{Kind: "ctl", Beh: nb, Sched: sch("launch listen kill settle")},                          // C17-e (poll)
-		{Kind: "ctl", Beh: Beh{Ign: true, ExitOnDone: -1}, Sched: sch("launch listen ready kill kill settle")}, // C17-f
-		{Kind: "ctl", Beh: Beh{Fork: true, ExitOnDone: -1}, Sched: sch("launch listen ready kill settle")},     // C17-g
+		{Kind: "ctl", Beh: nb, Sched: sch("launch kill settle")},                                 // C17-j: KILL before the dial is refused
+		{Kind: "ctl", Beh: nb, Sched: sch("launch listen kill settle")},                          // C17-e: crash under the start-up poll
+		{Kind: "ctl", Beh: Beh{Ign: true, ExitOnDone: -1}, Sched: sch("launch listen ready kill kill settle")}, // was C17-f: second KILL refused
+		{Kind: "ctl", Beh: Beh{Fork: true, ExitOnDone: -1}, Sched: sch("launch listen ready kill settle")},     // was C17-g: forked child swept
 		{Kind: "ctl", Beh: Beh{Ign: true, ExitOnDone: -1}, Sched: sch("launch listen ready conf start kill settle")}, // full escalation
 		{Kind: "ctl", Beh: Beh{ExitOnDone: 0}, Sched: sch("launch listen ready kill settle")},    // leaves on DONE
 		{Kind: "ctl", Beh: Beh{TransFail: true, ExitOnDone: -1}, Sched: sch("launch listen ready conf kill settle")}, // KILLED
